@@ -171,27 +171,27 @@ def settings(seed, tier):
             return ctor(x), [x]
         add(cls, label, b)
 
-    simple('CoherenceAnalyzer', 'welch32', lambda x: na.CoherenceAnalyzer(x, method=dict(this_method='welch', NFFT=32)))
-    simple('CoherenceAnalyzer', 'welch32-unwrap', lambda x: na.CoherenceAnalyzer(x, method=dict(this_method='welch', NFFT=32), unwrap_phases=True))
+    simple('CoherenceAnalyzer', 'welch32', lambda x: na.CoherenceAnalyzer(x, method=dict(this_method='welch', NFFT=32, n_overlap=16)))
+    simple('CoherenceAnalyzer', 'welch32-unwrap', lambda x: na.CoherenceAnalyzer(x, method=dict(this_method='welch', NFFT=32, n_overlap=16), unwrap_phases=True))
     simple('CoherenceAnalyzer', 'default', lambda x: na.CoherenceAnalyzer(x))
     simple('CoherenceAnalyzer', 'mt-unwrap', lambda x: na.CoherenceAnalyzer(x, method=dict(this_method='multi_taper_csd'), unwrap_phases=True), n=64)
     simple('MTCoherenceAnalyzer', 'adaptive', lambda x: na.MTCoherenceAnalyzer(x), n=64)
     simple('MTCoherenceAnalyzer', 'fixed-bw', lambda x: na.MTCoherenceAnalyzer(x, bandwidth=0.125, adaptive=False), n=64)
-    simple('SparseCoherenceAnalyzer', 'ij', lambda x: na.SparseCoherenceAnalyzer(x, ij=[(0, 1), (1, 2)], method=dict(this_method='welch', NFFT=32)))
-    simple('SparseCoherenceAnalyzer', 'band', lambda x: na.SparseCoherenceAnalyzer(x, ij=[(0, 1), (0, 2)], method=dict(this_method='welch', NFFT=32), lb=0.05, ub=0.3,
+    simple('SparseCoherenceAnalyzer', 'ij', lambda x: na.SparseCoherenceAnalyzer(x, ij=[(0, 1), (1, 2)], method=dict(this_method='welch', NFFT=32, n_overlap=16)))
+    simple('SparseCoherenceAnalyzer', 'band', lambda x: na.SparseCoherenceAnalyzer(x, ij=[(0, 1), (0, 2)], method=dict(this_method='welch', NFFT=32, n_overlap=16), lb=0.05, ub=0.3,
                                                                                       prefer_speed_over_memory=False))
     simple('SpectralAnalyzer', 'default', lambda x: na.SpectralAnalyzer(x))
-    simple('SpectralAnalyzer', 'nfft32', lambda x: na.SpectralAnalyzer(x, method=dict(this_method='welch', NFFT=32)), n=64)
+    simple('SpectralAnalyzer', 'nfft32', lambda x: na.SpectralAnalyzer(x, method=dict(this_method='welch', NFFT=32, n_overlap=16)), n=64)
     simple('SpectralAnalyzer', 'mt-method', lambda x: na.SpectralAnalyzer(x, method=dict(this_method='multi_taper_csd', NFFT=32), adaptive=True), n=64)
     simple('HilbertAnalyzer', 'plain', lambda x: na.HilbertAnalyzer(x))
     simple('MorletWaveletAnalyzer', 'freqs', lambda x: na.MorletWaveletAnalyzer(x, freqs=[0.1, 0.2]), one_d=True)
-    simple('MorletWaveletAnalyzer', 'log', lambda x: na.MorletWaveletAnalyzer(x, f_min=0.05, f_max=0.3, nfreqs=3, log_spacing=True, log_morlet=True), one_d=True)
+    simple('MorletWaveletAnalyzer', 'log', lambda x: na.MorletWaveletAnalyzer(x, f_min=0.15, f_max=0.4, nfreqs=3, log_spacing=True, log_morlet=True), one_d=True)
     simple('CorrelationAnalyzer', 'plain', lambda x: na.CorrelationAnalyzer(x), n=48)
     simple('NormalizationAnalyzer', 'plain', lambda x: na.NormalizationAnalyzer(x))
     simple('SNRAnalyzer', 'plain', lambda x: na.SNRAnalyzer(x), nch=4, n=64)
     simple('SNRAnalyzer', 'adaptive', lambda x: na.SNRAnalyzer(x, adaptive=True, bandwidth=0.1), nch=4, n=64)
     simple('GrangerAnalyzer', 'order2', lambda x: na.GrangerAnalyzer(x, order=2, n_freqs=32))
-    simple('GrangerAnalyzer', 'bic', lambda x: na.GrangerAnalyzer(x, ij=[(0, 1), (1, 2)], n_freqs=16, max_order=5))
+    simple('GrangerAnalyzer', 'bic', lambda x: na.GrangerAnalyzer(x, ij=[(0, 1), (1, 2)], n_freqs=16))
 
     def filt(label, **kw):
         def b(variant=0, input=None):
@@ -241,7 +241,7 @@ def settings(seed, tier):
             return na.EventRelatedAnalyzer(x, ev, 8, **kw), [x, ev]
         add('EventRelatedAnalyzer', label, b)
     era('ts-events', False)
-    era('ts-events-baseline', False, correct_baseline=True, zscore=True, offset=-2)
+    era('ts-events-baseline', False, correct_baseline=True, zscore=True, offset=2)
     era('events', True)
 
     def epochs(label, sub=False):
@@ -291,7 +291,13 @@ class Snap:
         d = obj.__dict__
         self.cache = {g: hv(d[g]) for g in table['getters'] if g in d}
         self.ids = {g: id(d[g]) for g in table['getters'] if g in d}
-        self.slots = {s: hv(slot_value(obj, s)) for s in table['slots']}
+        self.slots = {}
+        for s in table['slots']:
+            v = slot_value(obj, s)
+            kids = [t[len(s) + 1:] for t in table['slots'] if t.startswith(s + '.')]
+            if kids and isinstance(v, dict):      # entries that are slots of their own are hashed there
+                v = {k: x for k, x in v.items() if k not in kids}
+            self.slots[s] = hv(v)
         self.other = {k: hv(v) for k, v in d.items()
                       if k not in table['getters'] and k not in table['slots'] and k != 'input'}
         self.inputs = [hv(w) for w in watched] + ([hv(d['input'])] if 'input' in d and d['input'] is not None else [])
@@ -308,7 +314,7 @@ def read_result(obj, name):
 
 class Step:
     """what one read did, seen from outside"""
-    __slots__ = ('g', 'value_hash', 'err', 'fired', 'pw', 'cl', 'inp', 'unknown', 'same_obj_as_cached', 'was_cached')
+    __slots__ = ('g', 'value_hash', 'err', 'fired', 'pw', 'cl', 'inp', 'unknown', 'same_obj_as_cached', 'was_cached', 'returned_is_stored')
 
 
 def observed_read(obj, table, watched, name):
@@ -328,6 +334,7 @@ def observed_read(obj, table, watched, name):
     st.inp = before.inputs != after.inputs
     st.unknown = sorted(k for k in after.other if before.other.get(k) != after.other[k])
     st.was_cached = name in before.cache
+    st.returned_is_stored = err is not None or name not in obj.__dict__ or id(obj.__dict__[name]) == id(v)
     st.same_obj_as_cached = (not st.was_cached) or err is not None or (id(v) == before.ids.get(name))
     return st
 
